@@ -15,6 +15,7 @@
 package system
 
 import (
+	"math"
 	"reflect"
 	"sync"
 
@@ -133,6 +134,9 @@ func buildRuleMap(rules []*Rule) RuleMap {
 func IsValidSystemRule(rule *Rule) error {
 	if rule == nil {
 		return errors.New("nil Rule")
+	}
+	if math.IsNaN(rule.TriggerCount) {
+		return errors.New("NaN threshold")
 	}
 	if rule.TriggerCount < 0 {
 		return errors.New("negative threshold")
